@@ -163,7 +163,8 @@ int main(int argc, char** argv) {
                                      "DynamicBitSet.reset_range_concurrent", "DynamicBitSet.concurrent",
                                      "DynamicBitSet.bitwise"};
   static const char* ATOM[N_ATOMICS]  = {"atomicMinMax", "atomicAddSubtract", "AtomicHelpers.serial"};
-  static const char* SETS[N_SETS]     = {"ThreadSafeOrderedSet", "ThreadSafeMinHeap", "UnionFind"};
+  static const char* SETS[N_SETS]     = {"ThreadSafeOrderedSet", "ThreadSafeMinHeap", "UnionFind",
+                                         "ThreadSafeMinHeap.drained-remove"};
   std::vector<Entry> table;
   for (int i = 0; i < N_REDUCIBLE; ++i) table.push_back({RED[i], run_reducible, i});
   for (int i = 0; i < N_BAG; ++i) table.push_back({BAG[i], run_bag, i});
